@@ -129,3 +129,43 @@ package command
 //@   ensures err == nil && storeLastTx != nil ==> commander.lastTXID == storeLastTx.ID
 //@   ensures err == nil && storeLastTx == nil ==> commander.lastTXID == old(commander.lastTXID)
 //@   property C05
+
+// ---- C15: the account lock table. A request is granted only when, at that moment, nobody holds any of its
+// write accounts (for reading or writing) nor writes any of its read accounts; a refused request leaves the
+// table untouched; granting never releases anything; releasing removes only the request's own write locks.
+//@ fold occurs(s []string, a string) int = count x :: x == a
+//@ func (*command.lockIntent).tryLock
+//@   requires intent != nil && chain != nil && chain.readLocks != nil && chain.writeLocks != nil
+//@   ensures ret ==> forall j in 0..len(intent.accounts.Write) :: !old(has(chain.writeLocks, intent.accounts.Write[j])) && !old(has(chain.readLocks, intent.accounts.Write[j]))
+//@   ensures ret ==> forall j in 0..len(intent.accounts.Read) :: !old(has(chain.writeLocks, intent.accounts.Read[j]))
+//@   ensures ret ==> forall j in 0..len(intent.accounts.Write) :: has(chain.writeLocks, intent.accounts.Write[j])
+//@   ensures ret ==> forall j in 0..len(intent.accounts.Read) :: has(chain.readLocks, intent.accounts.Read[j])
+//@   ensures !ret ==> forall a string :: has(chain.writeLocks, a) == old(has(chain.writeLocks, a)) && has(chain.readLocks, a) == old(has(chain.readLocks, a))
+//@   ensures forall a string :: (old(has(chain.writeLocks, a)) ==> has(chain.writeLocks, a)) && (old(has(chain.readLocks, a)) ==> has(chain.readLocks, a))
+//@   ensures forall a string :: has(chain.writeLocks, a) && !old(has(chain.writeLocks, a)) ==> occurs(intent.accounts.Write, a) > 0
+//@   loop 1 invariant 0 - 1 <= rangeindex && rangeindex < len(intent.accounts.Read)
+//@   loop 1 invariant forall j in 0..rangeindex+1 :: !has(chain.writeLocks, intent.accounts.Read[j])
+//@   loop 2 invariant 0 - 1 <= rangeindex && rangeindex < len(intent.accounts.Write)
+//@   loop 2 invariant forall j in 0..rangeindex+1 :: !has(chain.writeLocks, intent.accounts.Write[j]) && !has(chain.readLocks, intent.accounts.Write[j])
+//@   loop 3 invariant 0 - 1 <= rangeindex && rangeindex < len(intent.accounts.Read) && chain.readLocks == old(chain.readLocks) && chain.readLocks != nil
+//@   loop 3 invariant forall j in 0..rangeindex+1 :: has(chain.readLocks, intent.accounts.Read[j])
+//@   loop 3 invariant forall a string :: old(has(chain.readLocks, a)) ==> has(chain.readLocks, a)
+//@   loop 4 invariant 0 - 1 <= rangeindex && rangeindex < len(intent.accounts.Write) && chain.writeLocks == old(chain.writeLocks) && chain.writeLocks != nil
+//@   loop 4 invariant forall j in 0..rangeindex+1 :: has(chain.writeLocks, intent.accounts.Write[j])
+//@   loop 4 invariant forall a string :: old(has(chain.writeLocks, a)) ==> has(chain.writeLocks, a)
+//@   loop 4 invariant forall a string :: has(chain.writeLocks, a) && !old(has(chain.writeLocks, a)) ==> occurs(intent.accounts.Write[:rangeindex+1], a) > 0
+//@   property C15
+
+//@ func (*command.lockIntent).unlock
+//@   requires intent != nil && chain != nil && chain.readLocks != nil && chain.writeLocks != nil
+//@   ensures forall j in 0..len(intent.accounts.Write) :: !has(chain.writeLocks, intent.accounts.Write[j])
+//@   ensures forall a string :: has(chain.writeLocks, a) ==> old(has(chain.writeLocks, a))
+//@   ensures forall a string :: old(has(chain.writeLocks, a)) && !has(chain.writeLocks, a) ==> occurs(intent.accounts.Write, a) > 0
+//@   ensures forall a string :: has(chain.readLocks, a) ==> old(has(chain.readLocks, a))
+//@   loop 1 invariant 0 - 1 <= rangeindex && rangeindex < len(intent.accounts.Read) && chain.readLocks == old(chain.readLocks)
+//@   loop 1 invariant forall a string :: has(chain.readLocks, a) ==> old(has(chain.readLocks, a))
+//@   loop 2 invariant 0 - 1 <= rangeindex && rangeindex < len(intent.accounts.Write) && chain.writeLocks == old(chain.writeLocks)
+//@   loop 2 invariant forall j in 0..rangeindex+1 :: !has(chain.writeLocks, intent.accounts.Write[j])
+//@   loop 2 invariant forall a string :: has(chain.writeLocks, a) ==> old(has(chain.writeLocks, a))
+//@   loop 2 invariant forall a string :: old(has(chain.writeLocks, a)) && !has(chain.writeLocks, a) ==> occurs(intent.accounts.Write[:rangeindex+1], a) > 0
+//@   property C15
